@@ -128,6 +128,8 @@ class FakeSocket:
             raise OSError(9, 'Bad file descriptor')
         if self.inbox.eof and net.broken_pipe:
             net.log.append(('epipe', self.fd))
+            if getattr(net, 'reset_by_peer', False):      # the other error a write to a closed peer can end in (RST received)
+                raise ConnectionResetError(104, 'Connection reset by peer')
             raise BrokenPipeError(32, 'Broken pipe')
         data = bytes(data)
         net.log.append(('send', self.fd, data))
